@@ -56,12 +56,17 @@ impl<'a> PrettyPrinter<'a> {
         &'a self,
         ctx: Context,
         parenthesized: Parenthesized<'a>,
+        glued: bool,
     ) -> ArenaDoc<'a> {
         // NOTE: This is a safe cast. The parentheses for patterns are all optional.
         // For safety, we don't remove parentheses around idents. See `paren-in-key.typ`.
         let expr = parenthesized.expr();
         // A float written like `1.` would run into a following dot (`(1.).abs()`), so it keeps its parentheses.
-        let can_omit = (expr.is_literal() && !expr.to_untyped().text().ends_with('.')
+        // A string ends at its quote; any other literal would run into content glued to it (`#(1)em`).
+        let is_safe_literal = expr.is_literal()
+            && !expr.to_untyped().text().ends_with('.')
+            && (!glued || matches!(expr, Expr::Str(_)));
+        let can_omit = (is_safe_literal
             || matches!(
                 expr.to_untyped().kind(),
                 SyntaxKind::Array
